@@ -37,3 +37,18 @@ claim("C19", "bounded-exhaustive differential testing against a reference accept
 claim("C20", "boundary-window enumeration and random sampling against an i128 oracle",
       "Every second in windows around 0, 2^31, 2^32 with sub-second offsets through SystemTime and chrono (UTC and fixed offsets), extremes, random instants, builder mtimes.",
       "Expected value computed from construction parameters.")
+claim("C02", "property-based testing with a recording/scripted verifier over generated signature-header shapes + exhaustive single-bit-flip mutation of library-signed packages against real pgp verifiers",
+      "Domain A: every Ok outcome is audited against the recorded verifier calls (consulted, all accepted, right bytes, digests match). Domain B: every bit of header and payload of signed packages flipped, with and without attacker-side digest recomputation; must never verify.",
+      "Trusted: pgp crate's signature verification for domain B; reference digests.")
+claim("C03", "property-based iff-oracle: digests recomputed independently for constructed packages and for every single-bit flip",
+      "Constructive subsets of the four digest tags with five corruption kinds and known/unknown algorithms, plus exhaustive bit flips of two packages carrying all four digests with the expectation recomputed from the mutant.",
+      "Ambiguous 'recorded' situations (duplicate tags, wrong types) are skipped and counted.")
+claim("C10", "model-based testing of operation histories (bounded-exhaustive + random) against a signing-state model",
+      "All histories up to length 3 (quick) / 4 (thorough) over six operations from six starting packages, oracle after every step: exactly the model's signer verifies, key id reported, digests verify, header and payload byte-identical.",
+      "Key ids derived from the secret keys with the pgp crate.")
+claim("C14", "fault enumeration: every failure offset x chunking family on scripted sinks; chunked sources; every truncation offset",
+      "Complete enumeration of failure offsets for Package::write and PackageMetadata::write of small packages across 10 chunking/interrupt families; read side with scripted BufRead sources.",
+      "Sinks obey the Write contract.", category="fault_enumeration")
+claim("C17", "bounded-exhaustive enumeration of destination/capability/level arguments + random setter strings, in isolated worker processes",
+      "All destinations up to 6/7 tokens over {/ . .. a b}, all capability strings up to 3 tokens, 24 levels x 4 compressors, arbitrary setter strings; no panic/abort, must-be-error classes are errors, successful builds read back.",
+      "Definition of 'cannot be split': std::path parent()/file_name() is None.")
